@@ -20,6 +20,12 @@ theorem u32s_le32s (vs : List Nat) (h : ∀ v ∈ vs, v < 4294967296) : u32s (le
     congr 1
     exact ih (fun w hw => h w (by simp [hw]))
 
+theorem u32s_length : ∀ (b : Bytes), (u32s b).length * 4 ≤ b.length := by
+  intro b
+  fun_induction u32s b with
+  | case1 a b c d rest ih => simp only [List.length_cons]; omega
+  | case2 t _ => simp
+
 /-! ## `Sectors::get` is independent of the cache; chain following -/
 
 /-- sector `id` of a sector area `body` (what `Sectors::get` returns, independent of the cache) -/
@@ -2083,7 +2089,7 @@ theorem getStream_layout (streams : List Stream) (L : Layout) (hv : ValidP strea
   obtain ⟨g1, g2, g3, g4, g5, g6⟩ := hg
   simp only at g1 g2 g3 g4 g5 g6
   subst g1 g2 g3 g4
-  unfold getStream
+  unfold getStream getStreamAt
   simp only
   rw [find_stream streams L hv s0 st hst]
   simp only [streamDir, hst]
@@ -2331,7 +2337,7 @@ theorem new_clean (file : Bytes) (len : Nat) :
     (∀ m, Cfb.new file len ≠ .panic m) ∧ Cfb.new file len ≠ .outOfFuel ∧
     ∀ c rd, Cfb.new file len = .ok (c, rd) →
       c.fats.length * 4 ≤ c.sectors.data.length ∧ c.mini.data.length ≤ c.sectors.data.length ∧
-      c.sectors.data.length + rd.length ≤ file.length := by
+      c.miniFats.length * 4 ≤ c.sectors.data.length ∧ c.sectors.data.length + rd.length ≤ file.length := by
   unfold Cfb.new
   have c1 := fromReader_clean file
   cases h1 : Header.fromReader file with
@@ -2400,23 +2406,24 @@ theorem new_clean (file : Bytes) (len : Nat) :
                 | outOfFuel => exact absurd h6 c6.2
                 | ok v6 =>
                   obtain ⟨mf, s5, rd5⟩ := v6
-                  obtain ⟨_, q5, m5, _⟩ := getChain_params _ _ _ _ _ _ _ _ h6
+                  obtain ⟨_, q5, m5, a5⟩ := getChain_params _ _ _ _ _ _ _ _ h6
+                  have hu := u32s_length mf
                   simp only [Res.bind_ok]
                   refine ⟨by simp, by simp, ?_⟩
                   intro c rd' hc
                   injection hc with hc; injection hc with hc hr; subst hc hr
                   dsimp only
-                  refine ⟨by omega, by omega, by omega⟩
+                  refine ⟨by omega, by omega, by omega, by omega⟩
             · refine ⟨by simp, by simp, ?_⟩
               intro c rd' hc
               injection hc with hc; injection hc with hc hr; subst hc hr
               dsimp only
-              refine ⟨by omega, by simp, by omega⟩
+              refine ⟨by omega, by simp, by simp, by omega⟩
 
 /-- `get_stream` never unwinds and never runs out of fuel, whatever the state and the allocation tables -/
 theorem getStream_clean (c : CfbSt) (name : List Char) (rd : Bytes) :
     (∀ m, getStream c name rd ≠ .panic m) ∧ getStream c name rd ≠ .outOfFuel := by
-  unfold getStream
+  unfold getStream getStreamAt
   split
   · simp
   · rename_i d _
@@ -2433,7 +2440,7 @@ def CfbSt.bytes (c : CfbSt) (rd : Bytes) : Nat := c.sectors.data.length + c.mini
 theorem getStream_alloc (c : CfbSt) (name : List Char) (rd : Bytes) (x : Bytes) (c' : CfbSt) (rd' : Bytes)
     (h : getStream c name rd = .ok (x, c', rd')) :
     x.length ≤ c.bytes rd ∧ c'.bytes rd' = c.bytes rd := by
-  unfold getStream at h
+  unfold getStream getStreamAt at h
   split at h
   · cases h
   · rename_i d _
@@ -2456,5 +2463,317 @@ theorem getStream_alloc (c : CfbSt) (name : List Char) (rd : Bytes) (x : Bytes) 
       · cases h
       · cases h
       · cases h
+
+
+/-! ## which path a read takes -/
+
+/-- on a generated container a name lookup reaches the entry of that stream, whatever the directory order -/
+theorem getStream_entry (streams : List Stream) (L : Layout) (hv : ValidP streams L) (c : CfbSt) (rd : Bytes)
+    (hg : Good streams L c rd) (s0 : Nat) (st : Stream) (hst : streams[s0]? = some st) :
+    getStream c st.name rd = getStreamAt c (streamDir streams L s0) rd := by
+  unfold getStream
+  rw [hg.dirs, find_stream streams L hv s0 st hst]
+
+/-- the bytes of a stream shorter than 4096 bytes are, in chain order, the 64-byte mini sectors `L.mini.ids s0`
+    of the mini stream, truncated to the size -/
+theorem mini_stream_sectors (streams : List Stream) (L : Layout) (hv : ValidP streams L) (s0 : Nat) (st : Stream)
+    (hst : streams[s0]? = some st) (hm : isMini st = true) :
+    st.data = (((L.mini.ids s0).map (sec (miniBody streams L) 64)).flatten).take st.data.length := by
+  have hs0 : s0 < streams.length := by
+    by_cases hlt : s0 < streams.length
+    · exact hlt
+    · rw [List.getElem?_eq_none (by omega)] at hst; cases hst
+  have hok := hv.minis s0 hs0
+  simp only [hst, hm, if_true] at hok
+  unfold miniBody
+  rw [Space.read_chain L.mini 64 (by omega) L.fill (miniPieces streams L) _ _ (miniPieces_uniform streams L)
+    (by simp) (by simp) s0 st.data (miniPieces_get streams L s0 st hst hm) hok]
+  exact (padChunks_flatten_take 64 L.fill (by omega) _ st.data (Nat.le_refl _)).symm
+
+/-- the bytes of a stream of at least 4096 bytes are, in chain order, the sectors `L.main.ids (3 + s0)` of the
+    file, truncated to the size -/
+theorem regular_stream_sectors (streams : List Stream) (L : Layout) (hv : ValidP streams L) (s0 : Nat) (st : Stream)
+    (hst : streams[s0]? = some st) (hm : isMini st = false) :
+    st.data = (((L.main.ids (3 + s0)).map (sec (mainBody streams L) L.ss)).flatten).take st.data.length := by
+  have hs0 : s0 < streams.length := by
+    by_cases hlt : s0 < streams.length
+    · exact hlt
+    · rw [List.getElem?_eq_none (by omega)] at hst; cases hst
+  have hok := hv.chains (3 + s0) (by omega)
+  have hd : (mainData streams L).getD (3 + s0) [] = st.data := by
+    rw [List.getD_eq_getElem?_getD, mainData_stream streams L s0 st hst]; simp [hm]
+  rw [hd] at hok
+  have hP : (mainPieces streams L)[3 + s0]? = some (pieces L.ss L.fill st.data) := by
+    apply mainPieces_get
+    rw [mainData_stream streams L s0 st hst]; simp [hm]
+  unfold mainBody
+  rw [Space.read_chain L.main L.ss (ss_pos L) L.fill (mainPieces streams L) _ _ (mainPieces_uniform streams L)
+    (fatSector_length L) (difSector_length L) (3 + s0) st.data hP hok]
+  exact (padChunks_flatten_take L.ss L.fill (ss_pos L) _ st.data (Nat.le_refl _)).symm
+
+/-- the mini-stream sub-read of `get_stream`: the chain is followed in the mini FAT, over the mini stream the
+    state holds; nothing is read from the file -/
+theorem mini_subread (streams : List Stream) (L : Layout) (hv : ValidP streams L) (s0 : Nat) (st : Stream)
+    (hst : streams[s0]? = some st) (hm : isMini st = true) (rd : Bytes) :
+    (⟨miniBody streams L, 64⟩ : Sectors).getChain (chainStart L.mini s0) (miniFatTable L) rd st.data.length =
+      .ok (st.data, ⟨miniBody streams L, 64⟩, rd) := by
+  have hs0 : s0 < streams.length := by
+    by_cases hlt : s0 < streams.length
+    · exact hlt
+    · rw [List.getElem?_eq_none (by omega)] at hst; cases hst
+  have hok := hv.minis s0 hs0
+  simp only [hst, hm, if_true] at hok
+  have hN : L.mini.owner.size ≤ nsect L.perFat L.mtotal * L.perFat :=
+    le_nsect_mul L.perFat L.mtotal (by rcases ss_cases L with ⟨_, h⟩ | ⟨_, h⟩ <;> omega)
+  have := Space.getChain_cached L.mini 64 (by omega) L.fill (miniPieces streams L)
+    (fun _ => List.replicate 64 L.fill) (fun _ => List.replicate 64 L.fill) (miniPieces_uniform streams L)
+    (by simp) (by simp) s0 st.data (miniPieces_get streams L s0 st hst hm) hok _ hN (mtotal_le streams L hv) rd
+    st.data.length
+  rw [stream_read_result 64 L.fill (by omega)] at this
+  rw [miniFatTable_eq]
+  unfold miniBody
+  exact this
+
+/-- the regular sub-read of `get_stream`: the chain is followed in the FAT over the sectors of the file -/
+theorem main_subread (streams : List Stream) (L : Layout) (hv : ValidP streams L) (s0 : Nat) (st : Stream)
+    (hst : streams[s0]? = some st) (hm : isMini st = false) (s : Sectors) (rd : Bytes)
+    (hinv : s.data ++ rd = mainBody streams L) (hsz : s.size = L.ss) :
+    ∃ s' rd', s.getChain (chainStart L.main (3 + s0)) (L.main.fats (L.nfat * L.perFat)) rd st.data.length =
+        .ok (st.data, s', rd') ∧ s'.data ++ rd' = mainBody streams L ∧ s'.size = L.ss := by
+  have hs0 : s0 < streams.length := by
+    by_cases hlt : s0 < streams.length
+    · exact hlt
+    · rw [List.getElem?_eq_none (by omega)] at hst; cases hst
+  have hok := hv.chains (3 + s0) (by omega)
+  have hd : (mainData streams L).getD (3 + s0) [] = st.data := by
+    rw [List.getD_eq_getElem?_getD, mainData_stream streams L s0 st hst]; simp [hm]
+  rw [hd] at hok
+  have hP : (mainPieces streams L)[3 + s0]? = some (pieces L.ss L.fill st.data) := by
+    apply mainPieces_get
+    rw [mainData_stream streams L s0 st hst]; simp [hm]
+  obtain ⟨s', rd', he, hi, hz⟩ := Space.getChain_gen L.main L.ss (ss_pos L) L.fill (mainPieces streams L) (fatSector L)
+    (difSector L) (mainPieces_uniform streams L) (fatSector_length L) (difSector_length L) (3 + s0) st.data hP hok
+    (L.nfat * L.perFat) hv.total_fat hv.total_le s rd [] hsz (by rw [List.append_nil]; exact hinv) st.data.length
+  rw [stream_read_result L.ss L.fill (ss_pos L)] at he
+  rw [List.append_nil] at hi
+  exact ⟨s', rd', he, hi, hz⟩
+
+/-! ## the reader as a lookup function -/
+
+theorem lookupOf_stream (streams : List Stream) (L : Layout) (hv : ValidP streams L) (c : CfbSt) (rd : Bytes)
+    (hg : Good streams L c rd) (st : Stream) (hst : st ∈ streams) : lookupOf c rd st.name = some st.data := by
+  obtain ⟨s0, hs0, rfl⟩ := List.getElem_of_mem hst
+  obtain ⟨c', rd', he, _⟩ := getStream_layout streams L hv c rd hg s0 streams[s0] (by simp [hs0])
+  unfold lookupOf
+  rw [he]
+
+theorem parsedDirs_names (streams : List Stream) (L : Layout) (hv : ValidP streams L) :
+    ∀ d ∈ parsedDirs streams L, d.name = rootName ∨ d.name = [] ∨ ∃ st ∈ streams, st.name = d.name := by
+  intro d hd
+  unfold parsedDirs at hd
+  simp only [List.cons_append, List.mem_cons, List.mem_append, List.mem_map, List.mem_replicate] at hd
+  rcases hd with rfl | ⟨o, ho, rfl⟩ | ⟨_, rfl⟩
+  · left; rfl
+  · cases o with
+    | none => right; left; rfl
+    | some s =>
+      have hs := hv.dirRange _ ho s rfl
+      right; right
+      refine ⟨streams[s], List.getElem_mem hs, ?_⟩
+      simp [slotDir, streamDir, hs]
+  · right; left; rfl
+
+theorem lookupOf_absent (streams : List Stream) (L : Layout) (hv : ValidP streams L) (c : CfbSt) (rd : Bytes)
+    (hg : Good streams L c rd) (name : List Char) (h1 : name ≠ rootName) (h2 : name ≠ [])
+    (h3 : ∀ st ∈ streams, st.name ≠ name) : lookupOf c rd name = none := by
+  unfold lookupOf getStream
+  have : c.dirs.find? (fun d => d.name = name) = none := by
+    rw [hg.dirs, List.find?_eq_none]
+    intro d hd hp
+    have hp' : d.name = name := by simpa using hp
+    rcases parsedDirs_names streams L hv d hd with h | h | ⟨st, hst, h⟩
+    · exact h1 (hp'.symm.trans h)
+    · exact h2 (hp'.symm.trans h)
+    · exact h3 st hst (h.trans hp')
+  rw [this]
+
+/-- the `len` argument of `Cfb::new` is a capacity hint only: the model ignores it (definitional) -/
+theorem new_len_independent (file : Bytes) (len₁ len₂ : Nat) : Cfb.new file len₁ = Cfb.new file len₂ := rfl
+
+/-! ## cost -/
+
+theorem chainLoopCost_le (fats : List Nat) : ∀ (rem id : Nat) (s : Sectors) (rd : Bytes) (acc : Nat),
+    Sectors.chainLoopCost fats rem id s rd acc ≤ rem := by
+  intro rem
+  induction rem with
+  | zero => intro id s rd acc; simp [Sectors.chainLoopCost]
+  | succ rem ih =>
+    intro id s rd acc
+    unfold Sectors.chainLoopCost
+    split; · omega
+    split; · omega
+    dsimp only
+    split
+    · omega
+    · have := ih ‹Nat› (s.get id rd).2.1 (s.get id rd).2.2 (acc + (s.get id rd).1.length); omega
+
+theorem getChainCost_le (s : Sectors) (start : Nat) (fats : List Nat) (rd : Bytes) :
+    s.getChainCost start fats rd ≤ fats.length := chainLoopCost_le fats _ _ _ _ _
+
+theorem loadFatsCost_le : ∀ (ids : List Nat) (s : Sectors) (rd : Bytes) (acc : Nat),
+    loadFatsCost ids s rd acc ≤ ids.length := by
+  intro ids
+  induction ids with
+  | nil => intro s rd acc; simp [loadFatsCost]
+  | cons id ids ih =>
+    intro s rd acc
+    unfold loadFatsCost
+    split
+    · dsimp only
+      split
+      · simp
+      · have := ih (s.get id rd).2.1 (s.get id rd).2.2 (acc + (u32s (s.get id rd).1).length)
+        simp only [List.length_cons]; omega
+    · have := ih s rd acc; simp only [List.length_cons]; omega
+
+theorem difatLoopCost_le : ∀ (fuel id : Nat) (difat : List Nat) (s : Sectors) (rd : Bytes) (count : Nat),
+    difatLoopCost fuel id difat s rd count ≤ fuel := by
+  intro fuel
+  induction fuel with
+  | zero => intro id difat s rd count; simp [difatLoopCost]
+  | succ fuel ih =>
+    intro id difat s rd count
+    unfold difatLoopCost
+    split
+    · dsimp only
+      split
+      · omega
+      · split
+        · omega
+        · have := ih ((difat ++ u32s (s.get id rd).1).getLastD 0) (difat ++ u32s (s.get id rd).1).dropLast
+            (s.get id rd).2.1 (s.get id rd).2.2 (count + 1)
+          omega
+    · omega
+
+/-- the DIFAT list grows by at most one sector's worth of entries per DIFAT sector, and the sectors visited fit the
+    bytes read: the list is linear in the file -/
+theorem difatLoop_length : ∀ (fuel id : Nat) (difat : List Nat) (s : Sectors) (rd : Bytes) (count : Nat)
+    (d : List Nat) (s' : Sectors) (rd' : Bytes),
+    difatLoop fuel id difat s rd count = .ok (d, s', rd') → count * s.size ≤ s.data.length →
+    ∃ k, k * s.size ≤ s'.data.length ∧ d.length * 4 + count * s.size ≤ difat.length * 4 + k * s.size := by
+  intro fuel
+  induction fuel with
+  | zero =>
+    intro id difat s rd count d s' rd' h hc
+    unfold difatLoop at h
+    split at h
+    · cases h
+    · injection h with h; injection h with h0 h; injection h with h1 _; subst h0 h1
+      exact ⟨count, hc, Nat.le_refl _⟩
+  | succ fuel ih =>
+    intro id difat s rd count d s' rd' h hc
+    unfold difatLoop at h
+    split at h
+    · dsimp only at h
+      split at h
+      · cases h
+      · rename_i hlen
+        split at h
+        · cases h
+        · rename_i hchk
+          have hsz := (Sectors.get_spec s id rd _ rfl).2.2
+          obtain ⟨k, hk1, hk2⟩ := ih _ _ _ _ _ _ _ _ h (by rw [hsz]; omega)
+          rw [hsz] at hk1 hk2
+          refine ⟨k, hk1, ?_⟩
+          have hu := u32s_length (s.get id rd).1
+          have hl : (s.get id rd).1.length = s.size := by simpa using hlen
+          simp only [List.length_dropLast, List.length_append] at hk2
+          rw [Nat.add_mul, Nat.one_mul] at hk2
+          omega
+    · injection h with h; injection h with h0 h; injection h with h1 _; subst h0 h1
+      exact ⟨count, hc, Nat.le_refl _⟩
+
+theorem fromReader_difat (rd : Bytes) (h : Header) (d : List Nat) (rd' : Bytes)
+    (hr : Header.fromReader rd = .ok (h, d, rd')) : d.length ≤ 109 := by
+  unfold Header.fromReader at hr
+  split at hr; · cases hr
+  dsimp only at hr
+  split at hr; · cases hr
+  split at hr; · cases hr
+  split at hr; · cases hr
+  split at hr; · cases hr
+  injection hr with hr; injection hr with _ hr; injection hr with h1 _
+  subst h1
+  have := u32s_length (List.drop 76 (List.take 512 rd))
+  simp only [List.length_drop, List.length_take] at this
+  omega
+
+/-- **cost of opening**: `Cfb::new` performs at most `2 · |file| + 110` sector reads on ANY byte string -/
+theorem newCost_linear (file : Bytes) : newCost file ≤ 2 * file.length + 110 := by
+  unfold newCost
+  cases h1 : Header.fromReader file with
+  | err e => simp
+  | panic m => simp
+  | outOfFuel => simp
+  | ok v1 =>
+    obtain ⟨h, difat0, rd⟩ := v1
+    obtain ⟨hss, hrd⟩ := fromReader_ok file h difat0 rd h1
+    have hd0 := fromReader_difat file h difat0 rd h1
+    have hc1 := difatLoopCost_le (file.length + 1) h.difatStart difat0 ⟨[], h.sectorSize⟩ rd 0
+    simp only
+    cases h2 : difatLoop (file.length + 1) h.difatStart difat0 ⟨[], h.sectorSize⟩ rd 0 with
+    | err e => simp only; omega
+    | panic m => simp only; omega
+    | outOfFuel => simp only; omega
+    | ok v2 =>
+      obtain ⟨difat, s1, rd1⟩ := v2
+      obtain ⟨_, q1, _⟩ := difatLoop_params _ _ _ _ _ _ _ _ _ h2
+      simp only [List.length_nil, Nat.zero_add] at q1
+      obtain ⟨k, hk1, hk2⟩ := difatLoop_length _ _ _ _ _ _ _ _ _ h2 (by simp)
+      simp only [Nat.zero_mul, Nat.add_zero] at hk2
+      dsimp only at hk1 hk2 q1
+      have hc2 := loadFatsCost_le difat s1 rd1 0
+      simp only
+      cases h3 : loadFats difat s1 rd1 0 with
+      | err e => simp only; omega
+      | panic m => simp only; omega
+      | outOfFuel => simp only; omega
+      | ok v3 =>
+        obtain ⟨fats, s2, rd2⟩ := v3
+        obtain ⟨_, q2, _, a2⟩ := loadFats_params _ _ _ _ _ _ _ h3
+        have a2' := a2 (by omega)
+        simp only [Nat.zero_add] at a2'
+        have hc3 := getChainCost_le s2 h.dirStart fats rd2
+        simp only
+        cases h4 : s2.getChain h.dirStart fats rd2 (h.dirLen * h.sectorSize) with
+        | err e => simp only; omega
+        | panic m => simp only; omega
+        | outOfFuel => simp only; omega
+        | ok v4 =>
+          obtain ⟨dirBytes, s3, rd3⟩ := v4
+          simp only
+          have hc4 : ∀ x, s3.getChainCost x fats rd3 ≤ fats.length := fun x => getChainCost_le s3 x fats rd3
+          split
+          · split
+            · rename_i root _ _ _
+              have := hc4 root.start
+              split
+              · rename_i s4 rd4 _
+                have := getChainCost_le s4 h.miniFatStart fats rd4
+                omega
+              · omega
+            · omega
+          · omega
+
+/-- sector reads of one `get_stream`: at most the number of entries of the allocation table it follows -/
+theorem getStreamCost_le (c : CfbSt) (name : List Char) (rd : Bytes) :
+    getStreamCost c name rd ≤ max c.fats.length c.miniFats.length := by
+  unfold getStreamCost
+  split
+  · omega
+  · rename_i d _
+    split
+    · have := getChainCost_le c.mini d.start c.miniFats rd; omega
+    · have := getChainCost_le c.sectors d.start c.fats rd; omega
 
 end Cfb
